@@ -343,6 +343,7 @@ static void compare_traj(mjModel* mA, mjModel* mB, int nstep, const StateIn* st,
   mjData* dB = mj_makeData(mB);
   apply_state(mA, dA, st); apply_state(mB, dB, st);
   double mx = 0, mx0 = 0; int nmatched = 0;
+  double qaccm = 0; mjData* dM = NULL;
   for (int k = 0; k <= nstep; k++) {
     if (k == 0) { mj_forward(mA, dA); mj_forward(mB, dB); } else { mj_step(mA, dA); mj_step(mB, dB); mj_forward(mA, dA); mj_forward(mB, dB); }
     int cnt = 0;
@@ -368,15 +369,57 @@ static void compare_traj(mjModel* mA, mjModel* mB, int nstep, const StateIn* st,
       for (int j = 0; j < mA->nsensordata; j++) { double d = reldev(dA->sensordata[j], dB->sensordata[j]); if (d > mx) mx = d; }
     nmatched = cnt;
     if (k == 0) mx0 = mx;
+    // matched-state comparison: B evaluated at A's CURRENT state (not at its own integrated one), so that the accelerations of
+    // the two descriptions are compared without the drift that a tiny difference accumulates along separately integrated paths
+    if (mA->nq == mB->nq && mA->nv == mB->nv && mA->na == mB->na && mA->nu == mB->nu && k % 50 == 0) {
+      if (!dM) dM = mj_makeData(mB);
+      mju_copy(dM->qpos, dA->qpos, mA->nq); mju_copy(dM->qvel, dA->qvel, mA->nv);
+      if (mA->na) mju_copy(dM->act, dA->act, mA->na);
+      if (mA->nu) mju_copy(dM->ctrl, dA->ctrl, mA->nu);
+      if (mA->nmocap == mB->nmocap && mA->nmocap) { mju_copy(dM->mocap_pos, dA->mocap_pos, 3 * mA->nmocap); mju_copy(dM->mocap_quat, dA->mocap_quat, 4 * mA->nmocap); }
+      dM->time = dA->time;
+      mj_forward(mB, dM);
+      for (int j = 0; j < mA->nv; j++) {
+        double sc = fabs(dA->qacc[j]) > 1 ? fabs(dA->qacc[j]) : 1;
+        double d = fabs(dA->qacc[j] - dM->qacc[j]) / sc; if (d > qaccm) qaccm = d;
+      }
+    }
+    if (getenv("C36_DEBUG") && (k == 0 || k == 1 || k == 2 || k == 10 || k == 50 || k == nstep)) {
+      double dq = 0; if (mA->nv == mB->nv) for (int j = 0; j < mA->nv; j++) { double d = reldev(dA->qacc[j], dB->qacc[j]); if (d > dq) dq = d; }
+      fprintf(stderr, "dbg k=%d mx=%.3g qaccdev=%.3g ncon=%d/%d nefc=%d/%d\n", k, mx, dq, dA->ncon, dB->ncon, dA->nefc, dB->nefc);
+    }
+  }
+  // conditioning probe: the same model A from a state whose velocities are scaled by (1 + 1e-9); amp = (deviation of A's own
+  // kept poses over the same horizon) / 1e-9 says how strongly this trajectory amplifies a relative perturbation, so that a
+  // rewriting which is only accurate to the compiler's numerical accuracy (fusestatic: Jacobi eigen-decomposition) can be judged
+  // relative to the conditioning of the scene and not by an absolute number
+  double amp = 0;
+  {
+    mjData* dP = mj_makeData(mA);
+    mjData* dQ = mj_makeData(mA);
+    apply_state(mA, dP, st); apply_state(mA, dQ, st);
+    for (int j = 0; j < mA->nv; j++) dQ->qvel[j] *= (1 + 1e-9);
+    for (int j = 0; j < mA->nq; j++) if (mA->nq == mA->nv) dQ->qpos[j] *= (1 + 1e-9);
+    double mp = 0;
+    for (int k = 0; k <= nstep; k++) {
+      if (k == 0) { mj_forward(mA, dP); mj_forward(mA, dQ); } else { mj_step(mA, dP); mj_step(mA, dQ); mj_forward(mA, dP); mj_forward(mA, dQ); }
+      for (int ib = 1; ib < mA->nbody; ib++) {
+        for (int j = 0; j < 3; j++) { double d = reldev(dP->xpos[3 * ib + j], dQ->xpos[3 * ib + j]); if (d > mp) mp = d; }
+        for (int j = 0; j < 9; j++) { double d = reldev(dP->xmat[9 * ib + j], dQ->xmat[9 * ib + j]); if (d > mp) mp = d; }
+      }
+      for (int j = 0; j < mA->nq; j++) { double d = reldev(dP->qpos[j], dQ->qpos[j]); if (d > mp) mp = d; }
+    }
+    amp = mp / 1e-9;
+    mj_deleteData(dP); mj_deleteData(dQ);
   }
   if (do_static) compare_static(mA, mB); else static_diff[0] = 0;
   compare_refs(mA, mB);
   // a simulation that blew up (bad qpos / qvel / qacc, followed by an automatic reset) is not comparable
   int nwarn = dA->warning[mjWARN_BADQPOS].number + dA->warning[mjWARN_BADQVEL].number + dA->warning[mjWARN_BADQACC].number +
               dB->warning[mjWARN_BADQPOS].number + dB->warning[mjWARN_BADQVEL].number + dB->warning[mjWARN_BADQACC].number;
-  printf("maxdev=%.3g dev0=%.3g nmatched=%d nqA=%d nqB=%d numdev=%.3g unstable=%d refs=%s static=%s\n", mx, mx0, nmatched, (int)mA->nq, (int)mB->nq,
-         static_numeric_dev(mA, mB), nwarn, refs_diff[0] ? refs_diff : "same", (do_static && !static_diff[0]) ? "same" : (do_static ? static_diff : "n/a"));
-  mj_deleteData(dA); mj_deleteData(dB);
+  printf("maxdev=%.3g dev0=%.3g nmatched=%d nqA=%d nqB=%d numdev=%.3g unstable=%d refs=%s static=%s amp=%.3g qaccm=%.3g\n", mx, mx0, nmatched, (int)mA->nq, (int)mB->nq,
+         static_numeric_dev(mA, mB), nwarn, refs_diff[0] ? refs_diff : "same", (do_static && !static_diff[0]) ? "same" : (do_static ? static_diff : "n/a"), amp, qaccm);
+  mj_deleteData(dA); mj_deleteData(dB); if (dM) mj_deleteData(dM);
 }
 
 static void op_pair(char** tok, int n) {
